@@ -36,6 +36,13 @@ fn main() {
             };
             std::process::exit(run_check(p.as_ref(), tier));
         }
+        "check-case" => {
+            if args.len() < 4 {
+                usage();
+            }
+            let Some(p) = props::by_id(&args[2]) else { std::process::exit(2) };
+            std::process::exit(framework::check_case_child(p.as_ref(), std::path::Path::new(&args[3])));
+        }
         "explore-child" => {
             // explore-child <ID> <tier> <seed> <from> <to>
             if args.len() < 7 {
